@@ -3,6 +3,7 @@ package main
 import (
 	"fmt"
 	"go/types"
+	"regexp"
 	"strings"
 
 	"golang.org/x/tools/go/ssa"
@@ -31,6 +32,8 @@ type specEnv struct {
 	depth   int
 	inPat   bool // evaluating a trigger pattern: no conditional terms
 }
+
+var identRe = regexp.MustCompile(`^[A-Za-z_][A-Za-z0-9_]*$`)
 
 type specErr struct{ msg string }
 
@@ -606,6 +609,16 @@ func (e *specEnv) evalCall(n *ECall) sv {
 		need(2)
 		as := args()
 		return sv{app(n.Fun, as[0].t, as[1].t), tInt}
+	case "ghost":
+		// ghost(x, "name"): a named integer ghost field of the object x (heap GH_g_name), for state of
+		// dependencies that the code cannot observe (e.g. how far a decoder has consumed its input)
+		need(2)
+		nm, ok := n.Args[1].(*EStr)
+		if !ok || !identRe.MatchString(nm.Val) {
+			specFail("ghost(x, \"name\") needs a literal identifier")
+		}
+		a := e.eval(n.Args[0])
+		return sv{sel(c.heapGet("GH_g_"+nm.Val, "(Array Int Int)"), c.refOf(a)), tInt}
 	case "sortedflag":
 		// ghost: 2 = last sorted by a stable sort, 1 = by an unstable sort, 0 = unknown
 		need(1)
